@@ -126,10 +126,17 @@ ObsInit ==
     exists |-> StartAccts,  \* accounts existing now
     viol   |-> {} ]
 
+
 V(o, c, name) == IF c THEN o ELSE [o EXCEPT !.viol = @ \cup {name}]
 
 RECURSIVE SumN(_)
 SumN(S) == IF S = {} THEN 0 ELSE LET r == CHOOSE x \in S : TRUE IN r.n + SumN(S \ {r})
+
+\* An IMAP session has INBOX of account "a" selected (cfg.watch) and polls after every call; told is
+\* the number of messages the server has announced to it (EXISTS).  It must never be told about a
+\* message that is not committed to that mailbox.
+InboxA(snap) == SumN({r \in snap : r.acct = "a" /\ r.mbox = "INBOX"})
+ObsTold(o, told, snap) == V(o, "a" \notin o.exists \/ told <= InboxA(snap), "AnnouncedUncommitted")
 
 Mine(o, snap) == {r \in snap : r.msg = o.cur}
 
